@@ -14,7 +14,7 @@ VARIABLES l, d, rf, bad
 vars == <<l, d, rf, bad>>
 
 Drift(e, what, detail) == PrintT("DRIFT " \o ToJson([case |-> e.case, what |-> what, detail |-> detail]))
-DriftUnless(cond, e, what, detail) == IF cond THEN TRUE ELSE Drift(e, what, detail)
+DriftUnless(cond, e, what, detail) == IF cond \/ bad THEN TRUE ELSE Drift(e, what, detail)
 \* at most one verdict per case: later deviations of the same case follow from the first
 Judge(e, codes, detail) ==
   /\ IF bad \/ codes = {} THEN TRUE ELSE Verdict(e.case, codes, detail)
